@@ -10,6 +10,7 @@ BOUNDS = {"programs": "every public operation on (a) healthy caches with symboli
                       "wrong field types, missing fields, extra fields; empty, NUL-filled and newline-only buckets; files where directories are expected and "
                       "directories where files are expected; dangling and looping symlinks",
           "integrity_arguments": "well-formed (as the property assumes)",
+          "open_writers": "the cache is cleared / tmp removed / directories replaced by files between a writer's first chunk and its commit",
           "outside": "out-of-memory; data larger than the address space"}
 
 RECORD_VARIANTS = {
@@ -162,6 +163,53 @@ def sizes(ctx, keyed, nchunks, api):
     expect_no_panic(ctx, o, tag + ":commit", "committing with an arbitrary declared size")
 
 
+def open_writer(ctx, change, keyed, declared, api):
+    """The cache directory changes under an open writer (another process clears the cache, removes tmp/, or
+    replaces directories): write, commit and drop must still terminate with a value or an error."""
+    scn = ctx.new_scn(api=api)
+    scn.env.short_read_budget = 0
+    D = scn.blob("D")
+    tag = "C20:%s:open-writer:%s:%s%s" % (api, change, "keyed" if keyed else "hash", ":declared" if declared else "")
+    if scn.write("seed", b"seed data").kind != "ok":
+        return
+    opts = {"size": D.len} if declared else {}
+    r = scn.open("k", opts) if keyed else scn.open_hash(opts)
+    if not expect_no_panic(ctx, r, tag + ":open", "opening a writer"):
+        return
+    if r.kind != "ok":
+        return
+    chunks = chunks_of(scn, D, 2)
+    o = scn.hwrite_all(r.handle, chunks[0])
+    if not expect_no_panic(ctx, o, tag + ":write", "writing"):
+        return
+    if change == "clear":
+        scn.clear()
+    elif change == "tmp-removed":
+        scn.fs_remove_dir_all(CACHE + "/tmp")
+    elif change == "cache-removed":
+        scn.fs_remove_dir_all(CACHE)
+    elif change == "tmp-is-file":
+        scn.fs_remove_dir_all(CACHE + "/tmp")
+        scn.fs_write(CACHE + "/tmp", b"i am a file")
+    elif change == "content-is-file":
+        scn.fs_remove_dir_all(CACHE + "/content-v2")
+        scn.fs_write(CACHE + "/content-v2", b"i am a file")
+    elif change == "index-is-file":
+        scn.fs_remove_dir_all(CACHE + "/index-v5")
+        scn.fs_write(CACHE + "/index-v5", b"i am a file")
+    what = "with the cache changed under the open writer (%s)" % change
+    if o.kind == "ok":
+        o2 = scn.hwrite_all(r.handle, chunks[1])
+        if not expect_no_panic(ctx, o2, tag + ":write2", "writing " + what):
+            return
+    o3 = scn.commit(r.handle)
+    if not expect_no_panic(ctx, o3, tag + ":commit", "commit " + what):
+        return
+    for name, out in (("read", scn.read("k")), ("metadata", scn.metadata("k")), ("list", scn.list())):
+        if not expect_no_panic(ctx, out, tag + ":" + name, name + " afterwards"):
+            return
+
+
 def tasks(tier, flavours):
     out = []
     for fl in flavours:
@@ -173,6 +221,12 @@ def tasks(tier, flavours):
                 out.append(dict(module="C20", family="hostile_index", flavour=fl, params=dict(variant=v, with_honest=wh, api=api)))
         for v in ("index-is-file", "content-is-file", "tmp-is-file", "bucket-is-dir", "content-file-is-dir", "content-symlink-loop", "content-symlink-dangling"):
             out.append(dict(module="C20", family="hostile_layout", flavour=fl, params=dict(variant=v, api=api)))
+        for change in ("clear", "tmp-removed", "cache-removed", "tmp-is-file", "content-is-file", "index-is-file"):
+            for keyed in (True, False):
+                for declared in (False, True):
+                    if tier == "quick" and ((fl != "sync" and (declared or not keyed)) or (declared and not keyed)):
+                        continue
+                    out.append(dict(module="C20", family="open_writer", flavour=fl, params=dict(change=change, keyed=keyed, declared=declared, api=api)))
         for keyed in (True, False):
             for n in ((1, 2) if tier == "quick" else (1, 2, 3)):
                 out.append(dict(module="C20", family="sizes", flavour=fl, params=dict(keyed=keyed, nchunks=n, api=api)))
